@@ -98,10 +98,10 @@ CHECKS["C12"] = {
 }
 
 CHECKS["C14"] = {
-    "technique": "MIR abstract interpretation with interpreted atoms (min, >>1, &1, chunk length) and relational merge facts: capacity / clamp / coverage / case-selection obligations of every unchecked operation in hex.rs",
-    "text": "PARTIAL CLAIM. Not decided: the digit strings themselves (byte values, nibble order, per-chunk ordering, the exact total across chunks, equality with the SIMD encoder) - those are numerical results that need execution. Decided statically, with N and the precision symbolic, under F0/F1 and (thorough) F2 = faster-hex: the digit budget is exactly min(precision, 2N) and <= 2N at every use; bytes = (d>>1)+(d&1), the unreachable_unchecked guarding max_bytes > N is infeasible and 2*bytes >= digits; small path (only under N <= 1024): buffer extent 2N, every encoder call has dst.len() >= 2*src.len(), the printed prefix lies within the buffer; large path: 2048-byte buffer, chunks of <= 1024 bytes, printed prefix min(2*chunk, digits_left) within the buffer and never above the remaining budget; the capacity precondition behind hex_encode_fallback's unreachable_unchecked / faster_hex's unwrap_unchecked holds at each call site; LowerHex/UpperHex instantiate UPPER = false/true and the constant digit tables are keyed by UPPER. Each is a necessary condition of the property (its violation is UB or missing/excess characters).",
-    "design_ref": "DESIGN.md §3 C14, §4",
-    "note": TRUST + " faster_hex's documented contract (fails only on an undersized destination) and slice::chunks are trusted.",
+    "technique": "MIR abstract interpretation with interpreted atoms (min, >>k, &mask, chunk length) and relational merge facts, anchored on what reaches Formatter::write_str: budget / coverage / capacity obligations of every unchecked operation in hex.rs, per-index store rule for the table encoder, per-iteration accounting rule for the chunk loop",
+    "text": "Decided statically, with N, the precision and the byte values symbolic, under F0/F1 (table encoder) and - capacity and case selection only - F2 = faster-hex (thorough). WHAT IS PRINTED: H8 the table encoder stores, for every k < src.len(), dst[2k] = TABLE[src[k] >> 4] and dst[2k+1] = TABLE[src[k] & 15] (closure over zip(dst.chunks_exact_mut(2), src), or the loop forms over the same pairing), H6 TABLE is b\"0123456789abcdef\" for LowerHex / ..ABCDEF for UpperHex (UPPER forwarded unchanged); H10 on the stack-buffer path every path to the single print runs exactly one encoder call from arr[0..L), L >= ceil(d/2), into the printed buffer from its first byte; H9 on the chunked path the pieces are input.chunks(k) over arr[0..ceil(d/2)) in order, each iteration encodes its piece into the buffer's start once before printing, prints exactly min(2*piece, digits_left) and digits_left starts at d and is only ever decremented by what was printed; H1/H7 d = min(precision, 2N) exactly and the stack-buffer print has length d. Together: the output is the first min(p, 2N) characters of the concatenated two-digit forms in index order (a prefix-of-concatenation argument stated in DESIGN; odd p ends on a high nibble because the cut is a prefix). SAFETY of every unchecked operation: H2 ceil(d/2) <= N (both hint spellings), 2*bytes >= d; H3/H4 printed prefixes lie inside their buffers, entered under N <= 1024 resp. with 2*chunk <= 2048 and no budget underflow; H5 dst.len() >= 2*src.len() at every encoder call (the precondition of the encoder's hint and of unwrap_unchecked on faster_hex's result). PARTIAL in one respect only: equality of the SIMD encoder's digits with the table encoder's is faster_hex's contract (trusted, not analysed); a chunked path that is not a loop over an iterator pipeline is recorded as not decided (evidence: coverage.not_decided), not as a violation - the claim then falls back to the safety obligations.",
+    "design_ref": "DESIGN.md §3 C14, §8.6",
+    "note": TRUST + " faster_hex's documented contract (lower/upper-case two-digit encoding; fails only on an undersized destination), slice::chunks / chunks_exact_mut / Zip pairing order, and that a str built from ASCII digit bytes prints those bytes are trusted.",
 }
 
 CHECKS["C15"] = {
